@@ -35,6 +35,7 @@ class Executor(ExternMixin, ExprMixin, CallMixin, BuiltinMixin, StmtMixin, Engin
 
     # ------------------------------------------------------------ one path
     def find_function(self, key, c):
+        self.enclosing_bound = set()
         target = c.get('target', key)
         cls, _, name = target.rpartition('.')
         if cls and cls in self.src.classes:
@@ -62,9 +63,14 @@ class Executor(ExternMixin, ExprMixin, CallMixin, BuiltinMixin, StmtMixin, Engin
                 node, _, _ = self.src.find_method(parts[0], parts[1])
                 mod = self.src.classes[owner].module
                 rest = parts[2:]
+            outer_fn = node
             for nm in rest:
+                outer_fn = node
                 node = next((n for n in ast.walk(node) if isinstance(n, ast.FunctionDef) and n.name == nm and n is not node), None) if node else None
             if node is not None:
+                # names the enclosing function binds: free variables of the nested function, captured at some EARLIER time
+                self.enclosing_bound = {n.id for n in ast.walk(outer_fn) if isinstance(n, ast.Name) and isinstance(n.ctx, ast.Store)} \
+                    | {a.arg for a in outer_fn.args.args + outer_fn.args.kwonlyargs}
                 return node, None, mod, {'nested_in': owner}
         if name in self.spec_funcs:
             return self.spec_funcs[name], None, '<spec>', {}
@@ -211,6 +217,11 @@ class Executor(ExternMixin, ExprMixin, CallMixin, BuiltinMixin, StmtMixin, Engin
             self.check_frame(c, True, fn, old_env)
         else:
             res = outcome[1]
+            if c.get('kind') == 'get' and ent.get('cached') and is_method and env[pname].k == 'obj' \
+                    and self.cache_may_be_stale(fn.name, fn, owner) and oracle.choose(2) == 1:
+                # the getter is a functools.cached_property: on an object with a history the value READ is the one computed in an
+                # earlier state of the object (never invalidated), i.e. any value of this shape
+                res = self.havoc_like(res, 'stale_' + fn.name) if res.k not in ('list', 'dict', 'obj') else SV('opq', self.sym('stale_' + fn.name, OPQ), 'unknown')
             penv = dict(old_env)
             penv['result'] = res
             for exc, cond in declared.items():
@@ -432,6 +443,33 @@ def explore(ex, key, c, first_choice=None):
             pr = PathResult(ci, list(oracle.prefix), outcome, st.obligations if err is None else [], getattr(st, 'inputs', {}), err)
             pr.old_heap = st.old_heap or {}
             pr.final_pc = list(st.pc)
-            pr.calls = sorted({k_ for t_, k_ in st.notes if t_ == 'call'})
+            pr.assumed_ids = set(getattr(st, 'assumed_ids', ()))
+            pr.branches = set(getattr(st, 'branches', ()))
+            pr.calls = sorted({n_[1] for n_ in st.notes if n_[0] == 'call'})
+            pr.callsites = [n_[1:] for n_ in st.notes if n_[0] == 'callsite']
             results.append(pr)
+    # branch-coverage vacuity guard: every outcome of a branch of the function body that some complete path takes must be taken
+    # by a complete path whose hypotheses are SATISFIABLE.  Otherwise that part of the code is 'proved' only on paths made infeasible
+    # by an assumption (a contradictory callee summary, a ghost effect read in the wrong state ...): a vacuous proof, refused.
+    from .solve import abstract_check, inprocess_check, has_big_numeral
+    complete = [pr for pr in results if pr.outcome and pr.outcome[0] in ('normal', 'raise') and not pr.error]
+    wanted = set()
+    for pr in complete:
+        wanted |= getattr(pr, 'branches', set())
+    covered = set()
+    for pr in sorted(complete, key=lambda p: -len(getattr(p, 'branches', ()))):
+        br = getattr(pr, 'branches', set())
+        if br <= covered:
+            continue
+        pc = list(pr.final_pc)
+        if abstract_check(pc, 1000) == 'unsat':
+            continue
+        if not has_big_numeral(pc):
+            r, _ = inprocess_check(pc, 1.0)
+            if r == 'unsat':
+                continue
+        covered |= br
+    for line, v in sorted(wanted - covered):
+        unsupported.append(f'{key}: the {"true" if v else "false"} outcome of the branch at line {line} is reached only on paths whose assumptions are '
+                           f'contradictory (vacuous proof refused: check callee summaries / ghost effects used before it)')
     return results, unsupported
